@@ -30,7 +30,8 @@ ORACLE_SYNC_IDS = {b"LIST": 0x5453494c, b"DENT": 0x544e4544, b"STAT": 0x54415453
 def check(ctx, R):
     T = terms(ctx)
     _formats(ctx, R)
-    from .c08 import buffered_reader, record_reader, record_generator
+    from .c08 import buffered_reader, record_reader, record_generator, _txinfo
+    _txinfo(ctx, R, T)                                # every list / stat starts from an empty receive buffer of its own
     for roles in all_roles(ctx):
         _list(ctx, R, roles, T)
         _stat(ctx, R, roles, T)
